@@ -93,7 +93,9 @@ class C09(Check):
     def gen(self, rng: random.Random, tier: str, index: int) -> dict:
         step = rng.choice([30, 60, 60, 120, 300])
         mode = rng.random()
-        if mode < 0.4:
+        if mode < 0.1:
+            out = step // rng.choice([2, 3])      # finer than the physics step: every step is an output step
+        elif mode < 0.4:
             out = step
         elif mode < 0.75:
             out = step * rng.choice([2, 3])
